@@ -45,6 +45,27 @@ CLAIMS = {
     'C18': ('the same scenario evaluation of Filter.run with lineage emissions as the event alphabet (count and kind of terminal events per scenario), store enumeration for run_id',
             'Decides, for every way a run can end, how many terminal lineage events the code emits and of which kind, that START comes first and that one run id is used. On the pinned tree every scenario emits several terminal events (genuine defect D8, seven keyed emission sites recorded as known findings).',
             'DESIGN.md §3 C18', 'Not decided: heartbeat timing relative to the run length; the asynchronous COMPLETE of the heartbeat thread is modelled as emitted once after the first stop request.'),
+    'C09': ('writer/reader table agreement: envelope indices resolved through Frame.from_jpg = from_blob parameter names and numpy shape order, message list shapes, encoding literals',
+            'Decides that MQ.frames2topicmsgs and MQ.topicmsgs2frames agree on the envelope field roles, the four message layouts, the encoding decision and the shape assertions of lazy decode.',
+            'DESIGN.md §3 C09', 'Not decided: pixel equality, JPEG tolerance, arbitrary JSON values.'),
+    'C10': ('path evaluation of every Frame accessor with class-private name mangling: guard dominance of cache stores, provenance of arrays handed to Frame(x, self, ...), freeze-before-return, package-wide who-writes flags.writeable',
+            'Decides the per-accessor invariants that make every history safe: caches filled only from read-only sources, promised copies built on fresh arrays, read-only never lifted in place, read-only views frozen, conversion table.',
+            'DESIGN.md §3 C10', 'Not decided: pixel values; multi-step histories beyond the per-accessor invariants.'),
+    'C12': ('path evaluation of the endpoint constructors for the port offsets, constant folding of TCP_DEFAULT_PORT, def-use shape of the source rewrite, delimiter-set extraction',
+            'Decides the arithmetic and grammar agreements the CLI wiring relies on: port span {p, p+1} at both ends vs. allocation step and default port, complete scan before allocation, suffix preservation, delimiter agreement.',
+            'DESIGN.md §3 C12', 'Not decided: id assignment, auto-chaining and id->address resolution as functions of the argument values.'),
+    'C13': ('path evaluation of RollLog.write / new_logfile / prune_logfiles, lock-dominance query over all stores to the shared state',
+            'Decides that a new log file cannot reuse an existing name (exclusive mode or timestamp forced above the newest), that the budget is tested after every write, that the newest file is never unlinked and the reader is re-based, and the lock discipline.',
+            'DESIGN.md §3 C13', 'Not decided: record-level exactly-once/in-order delivery across roll-over, refresh and pruning histories.'),
+    'C14': ('path evaluation of write_head / __init__ / close with with-block exit events: who-may-open the head path, write-close-rename ordering, validation dominance of seek()',
+            'Decides that the head file changes only by rename of a closed temp file (so a crash at any of the save\'s file-system calls leaves old or new content), that restore validates and never reads the temp file, and that the saved position is the reader\'s own.',
+            'DESIGN.md §3 C14', 'Not decided: "no record on disk is skipped" across arbitrary histories (seek landing, pruning timing).'),
+    'C16': ('path evaluation of OTelLineageExporter.export / _is_allowed (guard dominance of every facet store keyed by a metric name), return-path analysis of read_allowlist, def-use to the exporter constructor',
+            'Decides that no metric reaches the exported facet without passing the allow-list test, that an empty list allows nothing (only an explicit None allows all), that the default is the empty set handed through unmodified, and the histogram facet shape.',
+            'DESIGN.md §3 C16', 'Not decided: metric values.'),
+    'C17': ('path evaluation of Util.execute_xform_size and the video reader resize region with symbolic dimension terms: bound/clamp shape of every size handed to cv2.resize, sibling cross-check, dispatch set agreement, operation table',
+            'Decides bounds by construction (min/max against the configured pair), that no computed dimension reaches OpenCV unclamped, that accepted and executed actions agree, and the flip/rotate/format/box table.',
+            'DESIGN.md §3 C17', 'Not decided: aspect ratio within one pixel, pixel permutations, colours.'),
 }
 
 NOT_APPLICABLE = {
